@@ -28,7 +28,9 @@ def cpu_value(disp, row, c):
         return {ty} if ty else {0, ss}  # paused task while the body region is open: not fixed by the statement
     if ss != 0:
         return {ss}
-    return {2, 0}                       # no subsystem known: "unknown subsystem" (or nothing)
+    # progressing CPU whose thread has no instrumented section open: the "no/unknown subsystem" state (value 2); the view is
+    # built so that a CPU with a running thread is never empty (the repository's breakdown-no-black test states the same)
+    return {2}
 
 
 def e2e(ctx, build, scratch, exe, cat, model, tier, looms=1):
